@@ -75,6 +75,9 @@ static void drawScene(Rng& r, Ctx& c, Scene& s, int ndim, bool needCode, bool ne
   s.nvar       = r.coin(0.7) ? 1 : 2;
   double field = 100.;
   int layout   = r.irange(0, 2);
+  // one scene in four (2-D / 3-D): 'profiles' -- the first coordinate takes a few EXACT values, the others are continuous, so
+  // that samples (and the targets placed on a sample) are exactly aligned along the other axes (increment 0 on the first one)
+  if (ndim >= 2 && c.icase % 4 == 3) layout = 3;
   std::vector<double> off(ndim, 0.);
   if (r.coin(0.2))
     for (auto& o : off) o = r.uni(-1, 1) * std::pow(10., r.irange(2, 5));
@@ -96,6 +99,11 @@ static void drawScene(Rng& r, Ctx& c, Scene& s, int ndim, bool needCode, bool ne
       {
         const auto& cc = ctr[r.irange(0, 2)];
         for (int d = 0; d < ndim; d++) x[d] = cc[d] + 8. * r.normal();
+      }
+      else if (layout == 3)
+      {
+        x[0] = (r.irange(0, ng - 1) + 0.5) * field / ng;
+        for (int d = 1; d < ndim; d++) x[d] = r.uni(0, field);
       }
       else
       {
@@ -619,10 +627,15 @@ static void neighCase(Rng& r, Ctx& c)
   // the definition (on `data`) reproduces `lib`? For anisotropic / rotated searches with sectors the definition is
   // accepted in any admissible sector frame (geographic increments, increments in the ellipsoid axes, the same divided
   // by the coefficients; either sign)
+  // mdUndecided: no frame reproduces lib, but in at least one admissible frame a candidate sits on a sector boundary (that
+  // frame could not be evaluated): the comparison is then undecided, not failed
+  bool mdUndecided = false;
   auto matchesDefinition = [&](const std::vector<refn::Sample>& data, const TRef& t, const std::vector<int>& lib,
                                const std::vector<int>& selFixedFrame) -> bool
   {
+    mdUndecided = false;
     if (frameFixed) return lib == selFixedFrame;
+    bool anyAmbiguous = false;
     for (int fr = 0; fr < 3; fr++)
       for (int sg = -1; sg <= 1; sg += 2)
       {
@@ -630,9 +643,10 @@ static void neighCase(Rng& r, Ctx& c)
         s2.sectFrame    = fr;
         s2.sectSign     = sg;
         refn::Result r2 = refn::moving(data, *t.tg, t.itarget, s2);
-        if (r2.minAngGap < ANG_MARGIN) continue;
+        if (r2.minAngGap < ANG_MARGIN) { anyAmbiguous = true; continue; }
         if (lib == r2.sel) return true;
       }
+    mdUndecided = anyAmbiguous;
     return false;
   };
   // compare one returned set (plain search, or through the kriging machinery) with the definition
@@ -640,6 +654,7 @@ static void neighCase(Rng& r, Ctx& c)
   {
     std::sort(lib.begin(), lib.end());
     bool ok = matchesDefinition(sc.data, t, lib, t.res.sel);
+    if (!ok && mdUndecided) { c.skip("sector-boundary-in-some-frame"); return true; }
     std::string key, det;
     if (!ok)
     {
@@ -668,6 +683,7 @@ static void neighCase(Rng& r, Ctx& c)
       c.probe("ball-precondition-holds");
       orc = "set-ball";
       ok  = matchesDefinition(sc.data, t, lib, t.res.sel);
+      if (!ok && mdUndecided) { c.skip("sector-boundary-in-some-frame"); return true; }
       key = "C06:ball:precondition-holds:differs-from-definition";
       if (!ok)
       {
@@ -689,6 +705,7 @@ static void neighCase(Rng& r, Ctx& c)
       for (int i = 0; i < sc.n; i++) d2[i].active = sc.data[i].active && b.inK[i];
       refn::Result rk = refn::moving(d2, *t.tg, t.itarget, s);
       ok  = matchesDefinition(d2, t, lib, rk.sel);
+      if (!ok && mdUndecided) { c.skip("sector-boundary-in-some-frame"); return true; }
       key = "C06:ball:differs-from-definition-on-candidate-set";
       if (!ok) det = fmt("target %d nmaxi=%d lib=%s def-on-K=%s def=%s", trank, s.nmaxi, setStr(lib).c_str(),
                          setStr(rk.sel).c_str(), setStr(t.res.sel).c_str());
